@@ -184,15 +184,19 @@ func (c *codecVolatile) DecodeTo(d *binary.Decoder, rv reflect.Value) (err error
 		return err
 	}
 
-	for i := 0; i < int(size); i++ {
-		k, err := d.ReadSlice()
+	for i := uint64(0); i < size; i++ {
+		k, err := readSlice(d)
 		if err != nil {
-			return nil
+			return err
 		}
 
-		v, err := d.ReadSlice()
+		v, err := readSlice(d)
 		if err != nil {
-			return nil
+			return err
+		}
+
+		if len(v) < 16 {
+			return errCorrupt // a value always starts with the add and delete times
 		}
 
 		out.data[binary.ToString(&k)] = decodeValue(binary.ToString(&v))
